@@ -43,6 +43,40 @@ def _isnum(x):
 
 
 ROUND_VALUES = [Fraction(k, 2) for k in range(-6, 7)]
+MARGIN = z3.RealVal('1/1000000')
+
+
+def _with_margin(e, pol):
+    """the branch condition e (taken with polarity pol) strengthened so that it holds with a margin: a witness satisfying the
+    strengthened path condition is INTERIOR to the path, so floating-point evaluation of the same comparisons agrees with it"""
+    k = e.decl().kind() if z3.is_app(e) else None
+    ch = e.children() if z3.is_app(e) else []
+    if k == z3.Z3_OP_NOT:
+        return _with_margin(ch[0], not pol)
+    if k == z3.Z3_OP_AND:
+        parts = [_with_margin(c, pol) for c in ch]
+        return z3.And(*parts) if pol else z3.Or(*parts)
+    if k == z3.Z3_OP_OR:
+        parts = [_with_margin(c, pol) for c in ch]
+        return z3.Or(*parts) if pol else z3.And(*parts)
+    if k in (z3.Z3_OP_LE, z3.Z3_OP_LT, z3.Z3_OP_GE, z3.Z3_OP_GT) and z3.is_real(ch[0]):
+        a, b = ch
+        if k in (z3.Z3_OP_GE, z3.Z3_OP_GT):
+            a, b = b, a        # a <=/< b
+        return (a <= b - MARGIN) if pol else (a >= b + MARGIN)
+    if k == z3.Z3_OP_EQ and z3.is_real(ch[0]):
+        a, b = ch
+        return (a == b) if pol else z3.Or(a >= b + MARGIN, a <= b - MARGIN)
+    if k == z3.Z3_OP_DISTINCT and len(ch) == 2 and z3.is_real(ch[0]):
+        a, b = ch
+        return z3.Or(a >= b + MARGIN, a <= b - MARGIN) if pol else (a == b)
+    return e if pol else z3.Not(e)
+
+
+def interior_model(c):
+    """a generic witness that satisfies every branch decision of the path with a margin, or None"""
+    extra = [_with_margin(e, ch) for e, ch in c.decisions]
+    return generic_model(c, *extra)
 
 
 def generic_model(c, *assumptions):
@@ -468,7 +502,10 @@ def explore(harness, *, tier='quick', timeout_ms=20000, max_paths=20000, budget_
                 twins_done += 1
                 try:
                     core.CUR = ctx
-                    m = generic_model(ctx) or ctx.get_model()
+                    m = interior_model(ctx)
+                    interior = m is not None
+                    if m is None:
+                        m = generic_model(ctx) or ctx.get_model()
                     sxm = Sx(ctx)._extract_model(m)
                     exp = eval_observed(ctx, m)
                     rctx, rstatus, rerr = run_once(harness, [], 'real', sxm, timeout_ms, tier)
@@ -477,8 +514,12 @@ def explore(harness, *, tier='quick', timeout_ms=20000, max_paths=20000, budget_
                     flat = {}
                     _flatten(rctx.observed, flat)
                     mism = []
-                    if rctx.violations:
-                        # the real code violates the property on this solver-chosen witness input: a replayed violation
+                    if rctx.violations and not interior:
+                        mism.append(f"real run on a boundary witness: violations={[l for l, _ in rctx.violations]} (not reported: "
+                                    f"the path is only satisfiable on a decision boundary, where float and exact comparisons may differ)")
+                    elif rctx.violations:
+                        # the real code violates the property on a solver-chosen witness that is interior to the path
+                        # (every branch decision holds with a margin): a replayed violation
                         for rl, _ in rctx.violations[:1]:
                             if rl not in seen_labels:
                                 seen_labels.add(rl)
